@@ -338,7 +338,7 @@ func run(sc *scenario) (string, outcome) {
 }
 
 func TestScenarios(t *testing.T) {
-	rt.Check(t, 200, 6000, func(t *rapid.T) {
+	rt.Check(t, 200, 16000, func(t *rapid.T) {
 		sc := genScenario(t)
 		msg, oc := run(sc)
 		if msg != "" {
